@@ -68,4 +68,16 @@ theorem clientInit_cases (sup : List String) (pref : Option String) (ans : Answe
       · exact h
     · simp
 
+/-- a successful run: the answer was a version string of the list, and it is what is returned -/
+theorem clientInit_ok {sup : List String} {pref : Option String} {ans : Answer} {v : String}
+    {w : List Ev} (h : clientInit sup pref ans = (.ok v, w)) : v ∈ sup ∧ ans = .version v := by
+  cases hp : proposed sup pref with
+  | none => simp [clientInit, hp] at h
+  | some p =>
+    rcases clientInit_cases sup pref ans p hp with ⟨v', ha, hm, he⟩ | ⟨_, hno, _⟩
+    · rw [he] at h
+      simp only [Prod.mk.injEq, Outcome.ok.injEq] at h
+      exact ⟨h.1 ▸ hm, h.1 ▸ ha⟩
+    · exact absurd (by rw [h]) (hno v)
+
 end Verif.Lemmas.Version
